@@ -70,6 +70,7 @@ func vCycle(universe [][]byte, nT int, reduced bool) {
 	vrt.RandPromoteBudget(0)
 	h := vNewDBEnvU(universe)
 	defer h.fs.Cleanup()
+	h.checkLeaks = true
 	vrt.Assert(h.open(MemstoreSizeBytes(math.MaxUint64), WriteBufferSizeBytes(64), ReadBufferSizeBytes(64)) == nil, "db/open-no-error")
 	h.vBuildTables(nT)
 	vrt.Assert(h.tables() == nT, "cycle/one-table-per-rotation")
